@@ -247,7 +247,7 @@ func (jf *JSONFamily) decodePlain(e *FuncEnc, d, raw string, t types.Type, s *Re
 	if !goKindMatches(t, s) {
 		return "false", e.D.Zero(t), fmt.Sprintf("Go type %s does not decode JSON %q", t, s.Type)
 	}
-	if n, ok := t.(*types.Named); ok && n.Obj().Pkg() != nil && n.Obj().Pkg().Path() == "emitted" {
+	if n, ok := t.(*types.Named); ok && n.Obj().Pkg() != nil && n.Obj().Pkg().Path() == "emitted" && hasMethod(n, "UnmarshalJSON") {
 		ef, vf := e.udecFns(t)
 		return sx(ef, d), sx(vf, d), ""
 	}
@@ -816,4 +816,14 @@ func (jf *JSONFamily) installOneOfUn(f *ssa.Function, jt *jsonType) {
 	}
 	c.Modifies = jf.receiverKeys(T, nil)
 	jf.Em.W.Contracts[f.String()] = c
+}
+
+func hasMethod(n *types.Named, name string) bool {
+	ms := types.NewMethodSet(types.NewPointer(n))
+	for i := 0; i < ms.Len(); i++ {
+		if ms.At(i).Obj().Name() == name {
+			return true
+		}
+	}
+	return false
 }
